@@ -210,6 +210,27 @@ def label_tables(ctx, clause):
     return obs
 
 
+def shape_label_injective(ctx, clause):
+    """One label per class: two different classes must not be given the same shape label (each label is defined once in the
+    document).  Decision table of build_shapes_name_for_class_uri over pairs of class IRIs that differ only in their namespace."""
+    from ..abseval import Evaluator
+    f = ctx.p.func("shexer.utils.shapes:build_shapes_name_for_class_uri")
+    ns = "http://weso.es/shapes/"
+    pairs = [("http://hr.org/Person", "http://crm.org/ns#Person"), ("http://a.org/x/Item", "http://a.org/y/Item")]
+    obs = []
+    for a, b in pairs:
+        outs = []
+        for iri in (a, b):
+            ev = Evaluator(ctx)
+            outs.append(ev.outcomes(f, {"class_uri": iri, "shapes_namespace": ns}))
+        same = outs[0] == outs[1]
+        obs.append(Ob(clause, "R-TABLE", "R-TABLE|shape-label-injective|%s|%s" % (a, b), f.loc(), not same,
+                      "classes %s and %s get different labels" % (a, b) if not same else
+                      "classes %s and %s both get the label %s: the document defines that label twice (and references to it are ambiguous)" % (
+                          a, b, outs[0])))
+    return obs
+
+
 def check(ctx, tier):
     g = ctx.flow
     obs = []
@@ -239,6 +260,7 @@ def check(ctx, tier):
     from .c19 import prefix_choice_table
     obs += ctx.attempt(prefix_choice_table, ctx, "D-i", default=[])
     obs += ctx.attempt(lambda c, cl: prio.check(c, cl)[0], ctx, "D-j", default=[])
+    obs += ctx.attempt(shape_label_injective, ctx, "D-k", default=[])
     exceptions.apply(obs)
     return {"obs": obs, "floors": [Floor("shapes_namespace call sites", n_pl, 6), Floor("prefix insertion sites", n_g, 3), Floor("emission loops", n_l, 4)],
             "explanation": "Closedness and well-formedness clauses visible in the code: every label producer receives the configured "
